@@ -132,7 +132,7 @@ func removalMutants(base *Program, idPrefix string, max int, r interface{ Intn(i
 func nearMissCases() []*RejectCase {
 	var out []*RejectCase
 	forms := []string{"ptr-for-value", "value-for-ptr", "impl-for-iface", "underlying-for-named", "named-for-underlying", "alias-for-original"}
-	positions := []string{"result", "func-param", "struct-field", "bind-concrete"}
+	positions := []string{"result", "func-param", "struct-field", "bind-concrete", "fields-parent", "fields-parent-ptr-to-field"}
 	n := 0
 	for _, form := range forms {
 		for _, pos := range positions {
@@ -181,6 +181,24 @@ func nearMissCases() []*RejectCase {
 				s := b.NamedOf(0, "Holder", StructOf(FieldT{Name: "F", Ty: need}), "none")
 				items = append(items, b.Struct(s, false, "F"))
 				result = s
+			case "fields-parent", "fields-parent-ptr-to-field":
+				// a field selection whose parent is `need`; only `have` is provided
+				if form != "ptr-for-value" && form != "value-for-ptr" && form != "alias-for-original" {
+					continue
+				}
+				if pos == "fields-parent-ptr-to-field" && need.K != "ptr" {
+					continue
+				}
+				sd := need
+				if sd.K == "ptr" {
+					sd = sd.Elem
+				}
+				sd.Decl.Under = StructOf(FieldT{Name: "X", Ty: Basic("int")}, FieldT{Name: "Fld", Ty: Basic("string")})
+				items = append(items, b.Fields(need, "Fld"))
+				result = Basic("string")
+				if pos == "fields-parent-ptr-to-field" {
+					result = PtrTo(Basic("string"))
+				}
 			case "bind-concrete":
 				// an interface bound to `need`; only `have` is provided
 				base := methodBase(need)
@@ -498,6 +516,14 @@ func CheckC08(e *Env) int {
 		cases = append(cases, ms...)
 	}
 	cases = append(cases, indirectUseControls()...)
+	// bindings and providers met in every visiting order: each contributes, so none may be
+	// reported; with one more item added, exactly that item is
+	for i, p := range bindOrderFamily("bu", e.Seed, e.tierN(3, 1)) {
+		cases = append(cases, &RejectCase{P: p, Control: true, Cell: "control:" + p.Note})
+		if i%4 == 0 {
+			cases = append(cases, superfluousMutants(p, p.ID, []string{"func", "bind"})...)
+		}
+	}
 	runRejectCases(e, rep, cases, "c08")
 	return rep.Finish(t0)
 }
